@@ -269,7 +269,35 @@ func (x *Exec) instrWrites(in ssa.Instruction, ws *writeSet, seen map[*ssa.Funct
 				bt := types.Typ[types.Uint8]
 				ws.heaps[x.te.HeapKey(bt)] = bt
 			}
-			return // other interface method calls are treated as pure/opaque
+			if n := c.Method.Name(); n == "Error" || n == "String" {
+				return
+			}
+			// other interface methods: the union of the write sets of every method of
+			// that name, of every type of the module that implements the interface
+			if iface, ok := c.Value.Type().Underlying().(*types.Interface); ok {
+				for _, pkg := range x.prog.AllPackages() {
+					if pkg.Pkg == nil || !strings.HasPrefix(pkg.Pkg.Path(), "github.com/peterstace/simplefeatures") {
+						continue
+					}
+					for _, mem := range pkg.Members {
+						tm, ok := mem.(*ssa.Type)
+						if !ok {
+							continue
+						}
+						for _, T := range []types.Type{tm.Type(), types.NewPointer(tm.Type())} {
+							if !types.Implements(T, iface) {
+								continue
+							}
+							if sel := x.prog.MethodSets.MethodSet(T).Lookup(c.Method.Pkg(), c.Method.Name()); sel != nil {
+								if fn := x.prog.MethodValue(sel); fn != nil {
+									ws.merge(x.writes(fn, seen))
+								}
+							}
+						}
+					}
+				}
+			}
+			return
 		}
 		if b, ok := c.Value.(*ssa.Builtin); ok {
 			switch b.Name() {
@@ -283,6 +311,11 @@ func (x *Exec) instrWrites(in ssa.Instruction, ws *writeSet, seen map[*ssa.Funct
 			return
 		}
 		if callee := c.StaticCallee(); callee != nil {
+			if callee.Pkg != nil && callee.Pkg.Pkg.Path() == "container/heap" && x.root != nil {
+				if m := x.root.Pkg.Func("verifHeap" + callee.Name()); m != nil {
+					callee = m
+				}
+			}
 			sub := x.writes(callee, seen)
 			ws.merge(sub)
 			return
